@@ -106,7 +106,7 @@ unsigned MessageBase::decode(const f8String& from, unsigned s_offset, unsigned i
 	unsigned pos(static_cast<unsigned>(_pos.size())), last_valid_pos(npos);
 	const char *dptr(from.data());
 	char tag[FIX8_MAX_FLD_LENGTH], val[FIX8_MAX_FLD_LENGTH];
-	size_t last_valid_offset(0);
+	size_t last_valid_offset(0), last_valid_unknown(0);
 
 	for (unsigned result; s_offset <= fsize && (result = extract_element(dptr + s_offset, fsize - s_offset, tag, val));)
 	{
@@ -121,6 +121,7 @@ unknown_field:
 				{
 					last_valid_pos = pos;
 					last_valid_offset = s_offset;
+					last_valid_unknown = _unknown.size();
 				}
 				_unknown.append(dptr + s_offset, result);
 				s_offset += result;
@@ -129,6 +130,7 @@ unknown_field:
 			break;
 		}
 		s_offset += result;
+		last_valid_pos = npos; // unknown fields seen so far are followed by a field of this part: they belong to it
 		if (itr->_field_traits.has(FieldTrait::present))
 		{
 			if (!itr->_field_traits.has(FieldTrait::automatic))
@@ -181,7 +183,14 @@ unknown_field:
 		throw MissingMandatoryField(ostr.str());
 	}
 
-	return permissive_mode && last_valid_pos == pos ? static_cast<unsigned>(last_valid_offset) : s_offset;
+	if (permissive_mode && last_valid_pos != npos && !ignore)
+	{
+		// the trailing fields unknown to this part (header, body) are handed back to the part that follows:
+		// rewind to the first of them and take them out of the pass through string again
+		_unknown.resize(last_valid_unknown);
+		return static_cast<unsigned>(last_valid_offset);
+	}
+	return s_offset;
 }
 
 //-------------------------------------------------------------------------------------------------
